@@ -1,6 +1,6 @@
 (* C09 - every producer emits only well-formed event streams (Visitor contract).
    Statements only; proofs are in Core/AdapterProofs.v. *)
-From SF Require Import Base.Prelude Core.Events Core.EventsProofs Core.AdapterProofs.
+From SF Require Import Base.Prelude Core.Events Core.EventsProofs Core.AdapterProofs Cbor.Spec Cbor.Parse Cbor.ConformanceProofs.
 
 (* The contract monitor [contract_ok] (balanced and properly nested starts/finishes, one
    key before every member value, an announced non-negative length equals the number of
@@ -32,3 +32,11 @@ Theorem C09_adapter_stream : forall evs s, s_fail s = None -> contract_ok evs = 
              contract_ok (flat_map expand evs) = true.
 Proof. exact C09_adapter_all. Qed.
 Print Assumptions C09_adapter_stream.
+
+(* CBOR parser: on every item the reference decoder accepts, the events obey the contract
+   (announced definite lengths match, ByteType arrays hold bytes, keys precede values). *)
+Theorem C09_cbor_parser : forall b v, all_bytes b = true -> (zlen b <=? MaxInt64) = true ->
+  cbor_decode b = RValue v [] ->
+  exists evs, run_parse None b = Ok (evs, nilE) /\ contract_ok evs = true.
+Proof. exact ConformanceProofs.C09_cbor_parser. Qed.
+Print Assumptions C09_cbor_parser.
